@@ -286,6 +286,9 @@ def odd_equality_arguments() -> Optional[str]:
 
 def run(tier: str, rng: random.Random, proof_ok: bool) -> dict:
     rep = C08.run(tier, rng, proof_ok, oracle_fn=oracle, name="C09")
+    nr = C08.none_results_and_opaque_annotations("C09")
+    if nr:
+        rep["violations"].append({"kind": "oracle", **nr, "replay_case": {"none_results": True}})
     oe = odd_equality_arguments()
     if oe:
         rep["violations"].append({"kind": "oracle", "signature": "C09:odd-equality", "what": oe, "replay_case": {"odd_equality": True}})
@@ -302,6 +305,10 @@ def run(tier: str, rng: random.Random, proof_ok: bool) -> dict:
 def replay(path: str) -> int:
     j = json.load(open(path))
     cj = j.get("replay_case") or {}
+    if cj.get("none_results"):
+        r = C08.none_results_and_opaque_annotations("C09")
+        print("property violated: " + r["what"] if r else "property holds for None results and overridden opaque annotations")
+        return 1 if r else 0
     if cj.get("odd_equality"):
         r = odd_equality_arguments()
         print("property violated: " + r if r else "property holds for arguments with unusual equality")
